@@ -177,6 +177,13 @@ pub trait TargetApi {
     type Rd<'a>: Held
     where
         Self: 'a;
+    /// box the guard for a trip to another thread, if its type (key and all) is Send
+    fn send_guard<'a>(g: Self::G<'a>) -> Result<Box<dyn Opaque + Send + 'a>, Self::G<'a>> {
+        Err(g)
+    }
+    fn send_read_guard<'a>(g: Self::Rg<'a>) -> Result<Box<dyn Opaque + Send + 'a>, Self::Rg<'a>> {
+        Err(g)
+    }
     fn lock<'a>(&'a self, key: ThreadKey) -> Self::G<'a>;
     fn try_lock<'a>(&'a self, key: ThreadKey) -> Result<Self::G<'a>, ThreadKey>;
     fn unlock<'a>(g: Self::G<'a>) -> ThreadKey;
@@ -219,6 +226,11 @@ impl<'a, 'b, X: ?Sized + 'a> Widen<'a, X> for &'b X {
 
 impl TargetApi for M {
     const ESCAPABLE: bool = false;
+    fn send_guard<'a>(g: Self::G<'a>) -> Result<Box<dyn Opaque + Send + 'a>, Self::G<'a>> {
+        #[allow(unused_imports)]
+        use crate::caps::CapNo as _;
+        crate::caps::cap::<MutexGuard<'a, Pay, SimRawMutex>>().boxed_opaque(g)
+    }
     type G<'a> = MutexGuard<'a, Pay, SimRawMutex>;
     type Rg<'a> = NoRead;
     type D<'a> = &'a mut Pay;
@@ -257,6 +269,16 @@ impl TargetApi for M {
 
 impl TargetApi for R {
     const ESCAPABLE: bool = false;
+    fn send_guard<'a>(g: Self::G<'a>) -> Result<Box<dyn Opaque + Send + 'a>, Self::G<'a>> {
+        #[allow(unused_imports)]
+        use crate::caps::CapNo as _;
+        crate::caps::cap::<RwLockWriteGuard<'a, Pay, SimRawRwLock>>().boxed_opaque(g)
+    }
+    fn send_read_guard<'a>(g: Self::Rg<'a>) -> Result<Box<dyn Opaque + Send + 'a>, Self::Rg<'a>> {
+        #[allow(unused_imports)]
+        use crate::caps::CapNo as _;
+        crate::caps::cap::<RwLockReadGuard<'a, Pay, SimRawRwLock>>().boxed_opaque(g)
+    }
     type G<'a> = RwLockWriteGuard<'a, Pay, SimRawRwLock>;
     type Rg<'a> = RwLockReadGuard<'a, Pay, SimRawRwLock>;
     type D<'a> = &'a mut Pay;
@@ -402,6 +424,16 @@ impl TargetApi for Poisonable<RetryingLockCollection<CN>> {
 macro_rules! coll_api {
     ($ty:ty, $child:ty) => {
         impl TargetApi for $ty {
+            fn send_guard<'a>(g: Self::G<'a>) -> Result<Box<dyn Opaque + Send + 'a>, Self::G<'a>> {
+                #[allow(unused_imports)]
+                use crate::caps::CapNo as _;
+                crate::caps::cap::<LockGuard<<$child as happylock::lockable::Lockable>::Guard<'a>>>().boxed_opaque(g)
+            }
+            fn send_read_guard<'a>(g: Self::Rg<'a>) -> Result<Box<dyn Opaque + Send + 'a>, Self::Rg<'a>> {
+                #[allow(unused_imports)]
+                use crate::caps::CapNo as _;
+                crate::caps::cap::<LockGuard<<$child as happylock::lockable::Sharable>::ReadGuard<'a>>>().boxed_opaque(g)
+            }
             type G<'a> = LockGuard<<$child as happylock::lockable::Lockable>::Guard<'a>>;
             type Rg<'a> = LockGuard<<$child as happylock::lockable::Sharable>::ReadGuard<'a>>;
             type D<'a> = <$child as happylock::lockable::Lockable>::DataMut<'a>;
